@@ -571,7 +571,8 @@ def check_dask_borders(prog, rep):
         if not paths or paths[0].func() is None:
             raise AnalysisIncomplete('%s: dask path not found' % modname)
         f = paths[0].func()
-        sites = [s for s in sites_in(prog, f) if s.kind == 'map_overlap']
+        from ..dasksites import expanded_sites
+        sites = [s for s in expanded_sites(prog, f) if s.kind == 'map_overlap']
         if not sites:
             rep.add('L8-dask', f, '%s[dask]' % modname, 'map_overlap site', f.node.lineno, False,
                     'a 3x3 operator needs a one-cell halo on the dask path')
